@@ -656,6 +656,7 @@ def protocol(name, var, factory, randomised, entry, layout, dtype, times, tier, 
     case = {"config": name, "entry": entry, "layout": layout, "dtype": str(np.dtype(dtype)) if not conv else "int64", "times": times, "np_seed": seed,
             "verif_seed": C.seed(), "tier": tier, "ties": bool(ties), "rng_guards": guards}
     s0, d0 = vars_snapshot(deb)
+    ds0 = deep_state(s0)  # the settings THROUGH containers / helper objects (a key popped from a dict setting is invisible to same_vars)
     del RNG_ADVANCED[:]
 
     # ---- run 1: read-only inputs, provenance recorded
@@ -795,6 +796,10 @@ def protocol(name, var, factory, randomised, entry, layout, dtype, times, tier, 
     why = same_vars(s1, s2) or same_vars(d1, d2)
     if why:
         problems.append((f"{name}: instance state drifts between calls: {why}", {**case, "what": "instance state changed", "detail": why}))
+    why = deep_diff(ds0, deep_state(s2))
+    if why:
+        mismatches.append({"op": "deep-settings", "case": case, "impl": f"the calls changed a setting below the attribute level: {why}",
+                           "model": "Props.C12.apply_settings_fixed: a call leaves the settings"})
 
     # ---- buffer reuse: the caller overwrites the CONTENTS of the very same array objects (data and time) and calls again;
     #      the result must be the one a fresh instance gives on these values (nothing may be remembered per array object)
@@ -1436,8 +1441,357 @@ def window_sweep_cases(rng, tier, res, problems, mismatches, boost):
         mismatches.append({"op": "coverage", "case": {}, "impl": f"only {done} of {len(order[:n])} window-sweep cases ran", "model": "every family runs on its generated series"})
 
 
+# ------------------------------------------------------------------ settings sweep: non-default settings, incl. settings held in containers
+# Quantifiers of C12 covered here (every configuration above is a `from_variable` default; the only settings varied are windows):
+#   * "all debiasers and SETTINGS": the documented constructor keywords other than the window settings, drawn over their
+#     admissible values — in particular the settings that live one level DOWN, in a mutable container or a helper object the
+#     debiaser holds (fit keywords of the precipitation models: floc / fscale / shape fixed or free, None, given as python
+#     floats, numpy scalars or 0-d arrays; `distribution_fit_kwargs`; censoring thresholds; amounts distribution; cdf
+#     randomisation on/off; detrending / mapping type / delta type / shift kinds; cdf thresholds);
+#   * "all SEQUENCES of earlier apply calls on the same instance": first call, repeat, repeat after an unrelated call, a fresh
+#     instance built from the same settings, and the same through `apply` on a grid of two different locations.
+# Oracle = the statement: "the result depends only on the debiaser's settings, the arguments and the generator state" — every
+# repeat and the fresh instance are bit-identical to the first call (re-seeded iff a random step is on), inputs keep their bytes.
+# A change of the (deep) settings by a call is reported as a broken tie (Props.C12.apply_settings_fixed), not as a violation.
+SETTINGS_FAMILIES = {
+    # name: (class, variable, weight)
+    "qm_pr_model": ("QuantileMapping", "pr", 5), "ecdfm_pr_model": ("ECDFM", "pr", 4), "qdm_pr_model": ("QuantileDeltaMapping", "pr", 2),
+    "sdm_pr_kwargs": ("ScaledDistributionMapping", "pr", 3), "qdm_pr_threshold": ("QuantileDeltaMapping", "pr", 1),
+    "qm_tas": ("QuantileMapping", "tas", 2), "cdft": ("CDFt", "tas", 2), "ls_dc": ("LinearScaling", "tas", 1), "qdm_tas": ("QuantileDeltaMapping", "tas", 1),
+}
+
+
+def _typed(v, vtype):
+    """a setting value in the python / numpy type the spec names (a config file or an xarray attribute gives numpy types)"""
+    if v is None:
+        return None
+    if vtype == "np.float64":
+        return np.float64(v)
+    if vtype == "np.float32":
+        return np.float32(v)
+    if vtype == "0-d array":
+        return np.array(float(v))
+    if vtype == "int" and float(v) == int(v):
+        return int(v)
+    return float(v)
+
+
+def _fit_kwds(entry):
+    """a NEW dict at every call (None stays None): [[key, value, vtype], ...] -> {key: typed value}"""
+    if entry is None:
+        return None
+    return {k: _typed(v, t) for k, v, t in entry}
+
+
+def gen_fit_kwds(rng, dist):
+    """fit keywords of scipy's rv_continuous.fit for a two-parameter amounts distribution (shape, loc, scale); never all fixed"""
+    shape_kw = rng.choice(["f0", {"gamma": "fa", "weibull_min": "fc"}[dist]])
+    scale = rng.choice([2e-5, 4e-5, 7.5e-5, 1e-4])
+    shape = rng.choice([0.6, 0.8, 1.0, 1.5])
+    wb = dist == "weibull_min"  # scipy's weibull_min.fit override compares fscale with numbers and hashes the values: no None, no 0-d array
+    vt = lambda: rng.choice(["float", "float", "np.float64", "np.float32"] + ([] if wb else ["0-d array"]))  # noqa: E731
+    loc = ["floc", 0, rng.choice(["int", "int", "float", "np.float64"])]
+    opts = [
+        None, [loc], [loc, ["fscale", None, "float"]],
+        [loc, ["fscale", scale, vt()]], [["fscale", scale, vt()], loc], [["fscale", scale, vt()]],
+        [loc, ["fscale", scale, vt()]], [[shape_kw, shape, vt()], loc], [[shape_kw, shape, vt()], ["fscale", scale, vt()]],
+    ]
+    if wb:
+        opts = [o for o in opts if o is None or all(e[1] is not None for e in o)]
+    return rng.choice(opts)
+
+
+def settings_spec(rng, family, tier):
+    cls_name, var, _ = SETTINGS_FAMILIES[family]
+    st = {}
+    if family in ("qm_pr_model", "ecdfm_pr_model", "qdm_pr_model"):
+        mt = rng.choice(["hurdle"] * 5 + ["ignore_zeros", "ignore_zeros", "censored"] if family != "qdm_pr_model" else ["hurdle", "hurdle", "ignore_zeros"])
+        dist = "gamma" if mt == "censored" else rng.choice(["gamma", "gamma", "weibull_min"])
+        st = {"model_type": mt, "amounts_distribution": dist, "fit_kwds": gen_fit_kwds(rng, dist) if mt != "censored" else None,
+              "hurdle_model_randomization": rng.random() < 0.6, "censoring_threshold": rng.choice([0.05, 0.1, 0.5, 1.0]) / 86400,
+              # how the model object reaches the debiaser: the documented classmethod, or built by the user and passed as `distribution`
+              "via": "for_precipitation" if (family != "qdm_pr_model" and (mt == "censored" or rng.random() < 0.6)) else "distribution"}
+        if mt == "ignore_zeros" and dist == "weibull_min":
+            st["via"] = "distribution"  # for_precipitation gives the ignore-zeros model its default fit keywords (fscale=None)
+        if family == "qm_pr_model":
+            st["detrending"] = rng.choice(["no_detrending", "no_detrending", "multiplicative"])
+    elif family == "sdm_pr_kwargs":
+        st = {"fit_kwds": [e for e in (gen_fit_kwds(rng, "gamma") or [["floc", 0, "int"]])], "pr_lower_threshold": rng.choice([0.05, 0.1, 0.2]) / 86400}
+    elif family == "qdm_pr_threshold":
+        st = {"censoring_threshold": rng.choice([0.02, 0.05, 0.1, 0.3]) / 86400}
+    elif family == "qm_tas":
+        st = {"detrending": rng.choice(["additive", "multiplicative", "no_detrending"]), "mapping_type": rng.choice(["parametric", "nonparametric"]),
+              "cdf_threshold": rng.choice([1e-10, 1e-6, 1e-3]), "distribution": rng.choice(["norm", "norm", "laplace"])}
+    elif family == "cdft":
+        var = rng.choice(["tas", "pr"])
+        st = {"variable": var, "delta_shift": rng.choice(["additive", "multiplicative", "no_shift"]), "SSR": (var == "pr" and rng.random() < 0.7),
+              "ecdf_method": rng.choice(["kernel_density", "linear_interpolation", "step_function"]),
+              "iecdf_method": rng.choice(["inverted_cdf", "linear", "closest_observation"]),
+              "running_window_mode_over_years_of_cm_future": False}
+    elif family == "ls_dc":
+        var = rng.choice(["tas", "pr"])
+        st = {"class": rng.choice(["LinearScaling", "DeltaChange"]), "variable": var, "delta_type": rng.choice(["additive", "multiplicative"])}
+    elif family == "qdm_tas":
+        st = {"trend_preservation": rng.choice(["absolute", "relative"]), "distribution": rng.choice(["norm", "laplace"]),
+              "cdf_threshold": rng.choice([None, 1e-4, 1e-3]), "running_window_mode_over_years_of_cm_future": False}
+    slow = st.get("model_type") == "censored" or family == "qdm_pr_threshold"  # Nelder-Mead fits: short series, one window
+    window = (not slow) and rng.random() < 0.3  # several windows per call: later fits of the same call
+    st["running_window_mode"] = window
+    if window:
+        st["running_window_length"], st["running_window_step_length"] = rng.choice([[121, 121], [183, 183], [183, 183]])
+    return {"family": family, "settings": st, "days": [rng.choice([400, 500, 600]) if not slow else 300, rng.choice([401, 550]) if not slow else 301,
+                                                       rng.choice([450, 640]) if not slow else 330],
+            "layout": rng.choice(LAYOUTS_1D), "dtype": rng.choice(["float64", "float64", "float32"]), "times_kind": rng.choice(["date", "datetime64"]),
+            "data_seed": rng.randint(0, 2**31 - 1), "np_seed": rng.randint(0, 2**31 - 2), "verif_seed": C.seed(), "tier": tier}
+
+
+def settings_factory(spec):
+    """a NEW debiaser from the JSON-able settings of the spec; every container handed to the library is a new object"""
+    import scipy.stats
+
+    import ibicus.debias as D
+    from ibicus.utils import gen_PrecipitationHurdleModel, gen_PrecipitationIgnoreZeroValuesModel
+
+    fam = spec["family"]
+    cls_name, var, _ = SETTINGS_FAMILIES[fam]
+    st = dict(spec["settings"])
+    kw = {k: st[k] for k in ("running_window_mode", "running_window_length", "running_window_step_length",
+                             "running_window_mode_over_years_of_cm_future") if k in st}
+    with warnings.catch_warnings():
+        warnings.simplefilter("ignore")
+        if fam in ("qm_pr_model", "ecdfm_pr_model", "qdm_pr_model"):
+            cls = getattr(D, cls_name)
+            dist = getattr(scipy.stats, st["amounts_distribution"])
+            if "detrending" in st:
+                kw["detrending"] = st["detrending"]
+            if st["via"] == "for_precipitation":
+                pkw = dict(model_type=st["model_type"], amounts_distribution=dist, censoring_threshold=st["censoring_threshold"],
+                           hurdle_model_randomization=st["hurdle_model_randomization"])
+                if st["model_type"] == "hurdle":
+                    pkw["hurdle_model_kwds_for_distribution_fit"] = _fit_kwds(st["fit_kwds"])
+                return cls.for_precipitation(**pkw, **kw)
+            if st["model_type"] == "hurdle":
+                model = gen_PrecipitationHurdleModel(distribution=dist, fit_kwds=_fit_kwds(st["fit_kwds"]), cdf_randomization=st["hurdle_model_randomization"])
+            else:
+                model = gen_PrecipitationIgnoreZeroValuesModel(distribution=dist, fit_kwds=_fit_kwds(st["fit_kwds"]))
+            return cls.from_variable("pr", distribution=model, **kw)
+        if fam == "sdm_pr_kwargs":
+            return D.ScaledDistributionMapping.from_variable("pr", distribution_fit_kwargs=_fit_kwds(st["fit_kwds"]), pr_lower_threshold=st["pr_lower_threshold"], **kw)
+        if fam == "qdm_pr_threshold":
+            return D.QuantileDeltaMapping.for_precipitation(censoring_threshold=st["censoring_threshold"], running_window_mode_over_years_of_cm_future=False, **kw)
+        if fam == "qm_tas":
+            return D.QuantileMapping.from_variable("tas", detrending=st["detrending"], mapping_type=st["mapping_type"], cdf_threshold=st["cdf_threshold"],
+                                                   distribution=getattr(scipy.stats, st["distribution"]), **kw)
+        if fam == "cdft":
+            return D.CDFt.from_variable(st["variable"], delta_shift=st["delta_shift"], SSR=st["SSR"], ecdf_method=st["ecdf_method"], iecdf_method=st["iecdf_method"], **kw)
+        if fam == "ls_dc":
+            return getattr(D, st["class"]).from_variable(st["variable"], delta_type=st["delta_type"], **kw)
+        if fam == "qdm_tas":
+            return D.QuantileDeltaMapping.from_variable("tas", trend_preservation=st["trend_preservation"], distribution=getattr(scipy.stats, st["distribution"]),
+                                                        cdf_threshold=st["cdf_threshold"], **kw)
+    raise ValueError(fam)
+
+
+def deep_state(x, depth=0):
+    """structural snapshot of everything an instance holds, THROUGH containers and ibicus helper objects (a vars() snapshot
+    holds the container itself: a key popped from a dict setting is invisible to `is` / `==` on the same object)"""
+    import attrs
+
+    if depth > 6:
+        return "..."
+    if isinstance(x, dict):
+        return ("dict", tuple((repr(k), deep_state(v, depth + 1)) for k, v in x.items()))
+    if isinstance(x, (list, tuple)):
+        return (type(x).__name__, tuple(deep_state(v, depth + 1) for v in x))
+    if isinstance(x, (set, frozenset)):
+        return (type(x).__name__, tuple(sorted(repr(v) for v in x)))
+    if isinstance(x, np.ndarray):
+        return ("ndarray", str(x.dtype), x.shape, x.tobytes() if x.dtype != object else len(x))
+    if isinstance(x, (bool, int, float, str, bytes, type(None), np.generic)):
+        return (type(x).__name__, repr(x))
+    mod = type(x).__module__ or ""
+    if mod.startswith("ibicus"):
+        if attrs.has(type(x)):
+            names = [a.name for a in attrs.fields(type(x))]
+        else:
+            names = []
+        names += [k for k in getattr(x, "__dict__", {}) if k not in names]
+        return (type(x).__name__, tuple((n, deep_state(getattr(x, n, None), depth + 1)) for n in names))
+    return ("object", type(x).__name__)  # scipy distributions etc.: identity of the kind only
+
+
+def deep_diff(a, b, path="self"):
+    """first difference of two deep_state snapshots as text (None = equal)"""
+    if a == b:
+        return None
+    if isinstance(a, tuple) and isinstance(b, tuple) and len(a) == 2 and len(b) == 2 and a[0] == b[0] and isinstance(a[1], tuple) and isinstance(b[1], tuple):
+        ka = [e[0] if isinstance(e, tuple) and len(e) == 2 else None for e in a[1]]
+        kb = [e[0] if isinstance(e, tuple) and len(e) == 2 else None for e in b[1]]
+        if ka != kb:
+            return f"{path}: keys/fields {ka} -> {kb}"
+        for ea, eb in zip(a[1], b[1]):
+            if ea != eb:
+                return deep_diff(ea[1], eb[1], f"{path}.{ea[0]}") if isinstance(ea, tuple) and len(ea) == 2 else f"{path}: {ea!r} -> {eb!r}"
+    return f"{path}: {str(a)[:80]} -> {str(b)[:80]}"
+
+
+def settings_series(spec):
+    """three independent sets of (obs, cm_hist, cm_future) 1-d series + dates: a pure function of the spec"""
+    fam = spec["family"]
+    var = spec["settings"].get("variable", SETTINGS_FAMILIES[fam][1])
+    nprs = np.random.RandomState(spec["data_seed"])
+    kind, dt = spec["times_kind"], np.dtype(spec["dtype"])
+    nO, nH, nF = spec["days"]
+    dts = [dates_from(datetime.date(1990, 1, 1), nO, kind), dates_from(datetime.date(1990, 1, 1), nH, kind), dates_from(datetime.date(2050, 1, 1), nF, kind)]
+    sets = []
+    for j in range(3):
+        sets.append([gen_data(var, nprs, d_, sh + 0.5 * j).astype(dt) for d_, sh in zip(dts, (0.0, 1.0, 3.0))])
+    return sets, dts
+
+
+def run_settings_case(spec, res, problems, mismatches):
+    name = "settings/" + spec["family"]
+    sets, dts = settings_series(spec)
+    arrs, arrs_b, arrs_c = sets
+    seed = spec["np_seed"]
+    case = {"kind": "settings-sweep", "config": name, "spec": spec, "entry": "apply_location", "n": [int(a.size) for a in arrs]}
+    try:
+        deb = settings_factory(spec)
+    except Exception as ex:  # noqa: BLE001
+        res.notes.append(f"{name}: construction with {spec['settings']} raised {type(ex).__name__}: {str(ex)[:60]} (case skipped)")
+        return False
+    guards = rng_guards(deb)
+    deterministic = not guards
+    reseed = None if deterministic else seed
+    case["rng_guards"] = guards
+    how = "without re-seeding (the configuration has no random step)" if deterministic else "under the same np.random.seed"
+    trail = ["apply_location(series A) [first call, read-only inputs]"]
+    state_note = {}
+
+    def bad(what, desc, **kw):
+        problems.append((f"{name} {spec['settings']}: {desc}" + (f" [deep settings changed by the first call: {state_note['first']}]" if state_note.get("first") else ""),
+                         {**case, "what": what, "call_sequence": list(trail), "deep_settings_change": dict(state_note), **kw}))
+
+    def cmp(o, ref, label, what="not repeatable"):
+        if not _same_out(o, ref):
+            bad(what, f"output of the {label} differs from the first call ({_ndiff(o, ref)} of {ref.size} values) {how}", which=label)
+
+    ds0 = deep_state(deb)
+    inp = Inputs(arrs, dts, spec["layout"], "apply_location")
+    inp.readonly(True)
+    try:
+        try:
+            out1 = call(deb, inp, "apply_location", seed)
+        except Exception as ex:  # noqa: BLE001
+            if is_store_error(ex):
+                bad("read-only input written", f"a store into a caller buffer was attempted ({type(ex).__name__}: {str(ex)[:80]})")
+                return True
+            if "read-only" not in str(ex):
+                ch = inp.changed()
+                if ch:
+                    bad("input modified", f"caller arrays modified by apply_location (which then raised {type(ex).__name__}): {ch}", changed=ch)
+                res.notes.append(f"{name}: {spec['settings']} raises {type(ex).__name__}: {str(ex)[:80]} (settings case skipped)")
+                return False
+            inp.readonly(False)
+            deb = settings_factory(spec)
+            out1 = call(deb, inp, "apply_location", seed)
+        ch = inp.changed()
+        if ch:
+            bad("input modified", f"caller arrays modified by apply_location: {ch}", changed=ch)
+        why = deep_diff(ds0, deep_state(deb))
+        if why:
+            state_note["first"] = why
+            mismatches.append({"op": "deep-settings", "case": {"family": spec["family"], "settings": spec["settings"]},
+                               "impl": f"apply_location changed the instance below the attribute level: {why}",
+                               "model": "Props.C12.apply_settings_fixed / applyLocation_state: a call leaves the settings"})
+
+        def again(label):
+            i2 = Inputs(arrs, dts, "C", "apply_location")
+            trail.append(f"apply_location(series A) [{label}]")
+            try:
+                o = call(deb, i2, "apply_location", reseed)
+            except Exception as ex:  # noqa: BLE001
+                if is_store_error(ex):
+                    raise
+                bad("not repeatable", f"the {label} raised {type(ex).__name__}: {str(ex)[:80]} although the first call returned", which=label)
+                return
+            cmp(o, out1, label)
+            ch2 = i2.changed()
+            if ch2:
+                bad("input modified", f"caller arrays modified by apply_location (writable inputs, {label}): {ch2}", changed=ch2)
+
+        again("repeated call")
+        trail.append("apply_location(series B) [unrelated call]")
+        try:
+            call(deb, Inputs(arrs_b, dts, "C", "apply_location"), "apply_location", seed + 1)
+        except Exception as ex:  # noqa: BLE001
+            if is_store_error(ex):
+                raise
+            res.notes.append(f"{name}: unrelated call raised {type(ex).__name__}")
+        again("call after an unrelated call")
+        trail.append("apply_location(series A) [fresh instance with the same settings]")
+        try:
+            o4 = call(settings_factory(spec), Inputs(arrs, dts, "C", "apply_location"), "apply_location", seed if not deterministic else seed + 11)
+            cmp(o4, out1, "fresh instance with the same settings", what="depends on the instance's history")
+        except Exception as ex:  # noqa: BLE001
+            if is_store_error(ex):
+                raise
+            bad("depends on the instance's history", f"a fresh instance raised {type(ex).__name__}: {str(ex)[:80]} on the arguments the used instance accepted", which="fresh instance")
+        # ---- apply on a grid of two DIFFERENT locations (A, C): a fresh instance twice, then the used instance
+        trail.append("apply(grid 1x2 = series A, series C) [fresh instance, the same instance again, then the used instance]")
+        grid = [np.stack([a, c], axis=1).reshape(a.size, 1, 2) for a, c in zip(arrs, arrs_c)]
+        try:
+            fresh = settings_factory(spec)
+            g = [call(d_, Inputs(grid, dts, "C", "apply"), "apply", seed) for d_ in (fresh, fresh, deb)]
+            if not _same_out(g[0], g[1]):
+                bad("not repeatable", f"apply on a grid repeated on the same instance differs ({_ndiff(g[0], g[1])} of {g[0].size} values) under the same np.random.seed", which="apply repeated")
+            if not _same_out(g[0], g[2]):
+                bad("depends on the instance's history", f"apply on a grid: a fresh instance and the used instance (same settings) differ ({_ndiff(g[0], g[2])} of {g[0].size} values) "
+                    f"under the same np.random.seed", which="apply used vs fresh")
+            why = deep_diff(ds0, deep_state(fresh))
+            if why and not state_note.get("first"):
+                state_note["apply"] = why
+                mismatches.append({"op": "deep-settings", "case": {"family": spec["family"], "settings": spec["settings"]},
+                                   "impl": f"apply changed the instance below the attribute level: {why}", "model": "Props.C12.apply_settings_fixed"})
+        except Exception as ex:  # noqa: BLE001
+            if is_store_error(ex):
+                raise
+            res.notes.append(f"{name}: apply on a grid raised {type(ex).__name__}: {str(ex)[:60]}")
+    except Exception as ex:  # noqa: BLE001
+        if is_store_error(ex):
+            bad("read-only input written", f"a store into a caller buffer was attempted ({type(ex).__name__}: {str(ex)[:80]})")
+            return True
+        raise
+    st = spec["settings"]
+    fk = st.get("fit_kwds")
+    res.count(("settings", spec["family"], st.get("model_type"), st.get("via"), None if fk is None else tuple(sorted((k, v is None) for k, v, _ in fk)),
+               st.get("running_window_mode"), deterministic, spec["dtype"]), True,
+              sample={"family": spec["family"], "settings": st, "days": spec["days"], "rng_guards": guards})
+    return True
+
+
+def settings_sweep_cases(rng, tier, res, problems, mismatches, boost):
+    fams = [f for f, v in SETTINGS_FAMILIES.items() for _ in range(v[2])]
+    n = (26 if tier == "quick" else 150) * (3 if boost else 1)
+    order = list(SETTINGS_FAMILIES) + [rng.choice(fams) for _ in range(max(0, n - len(SETTINGS_FAMILIES)))]
+    done = fixed = 0
+    for fam in order[:n]:
+        spec = settings_spec(rng, fam, tier)
+        try:
+            ran = run_settings_case(spec, res, problems, mismatches)
+        except Exception as ex:  # noqa: BLE001
+            ran = False
+            res.notes.append(f"settings/{fam}: {spec['settings']} raised {type(ex).__name__}: {str(ex)[:100]}")
+        done += int(bool(ran))
+        fk = spec["settings"].get("fit_kwds")
+        fixed += int(bool(ran) and bool(fk) and any(v is not None and k != "floc" for k, v, _ in fk))
+    res.extra["settings_sweep_cases"], res.extra["settings_sweep_cases_with_a_fixed_fit_parameter"], res.extra["settings_sweep_planned"] = done, fixed, len(order[:n])
+    if done < len(order[:n]) // 2:
+        mismatches.append({"op": "coverage", "case": {}, "impl": f"only {done} of {len(order[:n])} settings-sweep cases ran", "model": "every family runs on its generated series"})
+
+
 # ------------------------------------------------------------------ the check
-MASKED_ALWAYS = ("ls_tas", "dc_pr", "ls_pr_window", "isimip_prsnratio_impute")
+MASKED_ALWAYS =("ls_tas", "dc_pr", "ls_pr_window", "isimip_prsnratio_impute")
 NAN_OK = ("ls_", "dc_", "isimip_prsnratio")
 
 
@@ -1528,6 +1882,14 @@ def run(tier, res, force_search=False):
     except Exception as ex:  # noqa: BLE001
         res.notes.append(f"window sweep raised {type(ex).__name__}: {str(ex)[:100]}")
     res.extra["window_sweep_wall_s"] = round(_time.time() - t_sweep, 1)
+
+    # ---- non-default settings (incl. settings held in containers / helper objects) x call sequences; its own stream
+    t_sweep = _time.time()
+    try:
+        settings_sweep_cases(random.Random(C.seed() * 15485863 + 1207), tier, res, problems, mismatches, boost)
+    except Exception as ex:  # noqa: BLE001
+        res.notes.append(f"settings sweep raised {type(ex).__name__}: {str(ex)[:100]}")
+    res.extra["settings_sweep_wall_s"] = round(_time.time() - t_sweep, 1)
 
     # ---- a run in which (nearly) nothing was exercised must not pass
     skipped = sum(1 for n_ in res.notes if "configuration skipped" in n_)
@@ -1671,6 +2033,18 @@ def replay(data):
         for desc, case in problems[:5]:
             print("REPRODUCED:", desc[:300])
             print("  call sequence:", case.get("call_sequence"))
+        print("replay:", "violation reproduced" if problems else "not reproduced")
+        return 1 if problems else 0
+    if fi.get("kind") == "settings-sweep":
+        # the spec holds the settings (containers as [[key, value, type], ...]), the shape of the series and the seeds
+        res = C.Result(PROP, fi["spec"].get("tier", "quick"))
+        problems, mism = [], []
+        run_settings_case(fi["spec"], res, problems, mism)
+        for desc, case in problems[:5]:
+            print("REPRODUCED:", desc[:400])
+            print("  call sequence:", case.get("call_sequence"))
+        for m in mism[:2]:
+            print("  broken tie:", m["impl"][:200])
         print("replay:", "violation reproduced" if problems else "not reproduced")
         return 1 if problems else 0
     os.environ["VERIF_SEED"] = str(fi.get("verif_seed", 0))
